@@ -35,6 +35,24 @@ func init() {
 		return "ok " + showV(v)
 	}
 	ops["vstring"] = func(a []string) string { return hx(mkv(a, 0).String()) }
+	// the small accessors: StringWithoutEpoch, IsNative, Empty on a directly constructed value
+	ops["vacc"] = func(a []string) string {
+		v := mkv(a, 0)
+		return hx(v.StringWithoutEpoch()) + " " + showBool(v.IsNative()) + " " + showBool(v.Empty())
+	}
+	// Parse, StringWithoutEpoch, Parse again
+	ops["vnoepoch"] = func(a []string) string {
+		v, err := version.Parse(arg(a, 0))
+		if err != nil {
+			return "err"
+		}
+		t := v.StringWithoutEpoch()
+		w, err := version.Parse(t)
+		if err != nil {
+			return "ok " + hx(t) + " err"
+		}
+		return "ok " + hx(t) + " ok " + showV(w)
+	}
 	ops["vroundtrip"] = func(a []string) string {
 		v, err := version.Parse(arg(a, 0))
 		if err != nil {
